@@ -26,8 +26,8 @@ import (
 	"time"
 
 	"mosn.io/api"
-	"mosn.io/mosn/pkg/configmanager"
 	v2 "mosn.io/mosn/pkg/config/v2"
+	"mosn.io/mosn/pkg/configmanager"
 	_ "mosn.io/mosn/pkg/filter/network/streamproxy"
 	_ "mosn.io/mosn/pkg/network"
 	"mosn.io/mosn/pkg/server"
@@ -573,6 +573,17 @@ func runTcpScript(c *hx.Ctx, sc tcpScript, r *hx.Rng) (string, bool) {
 		for _, h := range w.hosts {
 			h.shutdown()
 		}
+		// health flags live in a process-wide store keyed by ADDRESS (shared by every host object with that address):
+		// a flag left behind would make a later script's host on a reused port unhealthy from the start
+		if w.info != nil {
+			if snap := w.snapshot(); snap != nil {
+				snap.HostSet().Range(func(h types.Host) bool {
+					h.ClearHealthFlag(api.FAILED_ACTIVE_HC)
+					return true
+				})
+			}
+			cluster.GetClusterMngAdapterInstance().RemovePrimaryCluster(w.name)
+		}
 		for w.amb > 0 {
 			w.info.ResourceManager().Connections().Decrease()
 			w.amb--
@@ -590,7 +601,7 @@ func runTcpScript(c *hx.Ctx, sc tcpScript, r *hx.Rng) (string, bool) {
 	}
 	cm := cluster.GetClusterMngAdapterInstance()
 	cc := v2.Cluster{Name: w.name, ClusterType: v2.SIMPLE_CLUSTER, LbType: lb,
-		ConnectTimeout: &api.DurationConfig{Duration: tcpConnectTimeout},
+		ConnectTimeout:   &api.DurationConfig{Duration: tcpConnectTimeout},
 		CirBreThresholds: v2.CircuitBreakers{Thresholds: []v2.Thresholds{{MaxConnections: uint32(sc.max)}}}}
 	if err := cm.AddOrUpdatePrimaryCluster(cc); err != nil {
 		panic(err)
@@ -631,7 +642,6 @@ func runTcpScript(c *hx.Ctx, sc tcpScript, r *hx.Rng) (string, bool) {
 		o := w.settle()
 		out = append(out, tok+":"+o.String())
 	}
-	cm.RemovePrimaryCluster(w.name)
 	return strings.Join(out, ";"), true
 }
 
